@@ -183,9 +183,108 @@ async def cwd_switch(net, hyg, plan):
         w.cleanup()
 
 
+async def after_error(net, hyg, plan):
+    """a high-level operation that fails (or is abandoned) half-way leaves nothing in the client that changes what the next
+    operation does"""
+    viol = []
+    mon = {"upload_tree": 0, "download_tree": 0, "recursive_list": 0, "remove_tree": 0, "after_error": 1}
+    remote0 = {"/tree": DIR, "/tree/a": DIR, "/tree/a/1.txt": b"1", "/tree/b": DIR, "/tree/b/keep.txt": b"keep", "/tree/b/deep": DIR,
+               "/tree/b/deep/k2": b"k2", "/tree/c": DIR, "/tree/c/3.txt": b"3", "/other": DIR, "/other/o.txt": b"o", "/other/sub": DIR,
+               "/other/sub/p.txt": b"p", "/vault": DIR, "/vault/open1": b"x", "/vault/locked": DIR, "/vault/locked/l.txt": b"l",
+               "/vault/open2": b"y", "/vault/z-open3": b"z", "/scratch": DIR, "/scratch/s1": b"s", "/scratch/d": DIR, "/scratch/d/s2": b"t",
+               "/first": DIR, "/second": DIR}
+    perms = [aioftp.Permission("/"), aioftp.Permission("/tree/b", readable=False), aioftp.Permission("/vault/locked", writable=False),
+             aioftp.Permission("/vault/open2", writable=False)]
+    w = W.World(net, tree=remote0, users=[aioftp.User(base_path="/", permissions=perms)])
+    await w.start()
+    if plan["fallback"]:
+        del w.server.commands_mapping["mlsd"]
+        del w.server.commands_mapping["mlst"]
+    try:
+        c = aioftp.Client(path_io_factory=aioftp.MemoryPathIO)
+        await c.connect("127.0.0.1", 2121)
+        await c.login()
+        want = dict(remote0)
+        what = plan["what"]
+        first_error = None
+        try:
+            if what == "list-refused":
+                await c.list("/tree", recursive=True)
+            elif what == "list-abandoned":
+                async for pth, info in c.list("/tree", recursive=True):
+                    if pth.name == "a":
+                        break
+                # the data connection of the abandoned listing is the client's to clean up: a fresh client object is not needed
+            elif what == "remove-refused":
+                await c.remove("/vault")
+            elif what == "upload-twice":
+                local = pathlib.PurePosixPath("/src")
+                await c.path_io.mkdir(local / "in" / "deeper", parents=True)
+                async with c.path_io.open(local / "in" / "deeper" / "f.txt", mode="wb") as lf:
+                    await lf.write(b"payload")
+                await c.change_directory("/first")
+                await c.upload(local, "incoming/v1", write_into=True)
+                for k_, v_ in (("/first/incoming", DIR), ("/first/incoming/v1", DIR), ("/first/incoming/v1/in", DIR),
+                               ("/first/incoming/v1/in/deeper", DIR), ("/first/incoming/v1/in/deeper/f.txt", b"payload")):
+                    want[k_] = v_
+        except (aioftp.StatusCodeError, ConnectionError) as e:
+            first_error = e
+        if what == "remove-refused":
+            if first_error is None:
+                viol.append({"key": "remove-of-protected-tree-succeeded", "msg": f"plan {plan}"})
+            # whatever was deleted before the refusal is gone; judge only what follows
+            want = dict(w.tree())
+        if what == "list-abandoned":
+            # an abandoned listing leaves its data connection half-read: the documented way on is a new client session
+            c.close()
+            c = aioftp.Client(path_io_factory=aioftp.MemoryPathIO)
+            await c.connect("127.0.0.1", 2121)
+            await c.login()
+        # the next operations
+        try:
+            if what == "upload-twice":
+                await c.change_directory("/second")
+                await c.upload(pathlib.PurePosixPath("/src"), "incoming/v1", write_into=True)
+                mon["upload_tree"] += 1
+                for k_, v_ in (("/second/incoming", DIR), ("/second/incoming/v1", DIR), ("/second/incoming/v1/in", DIR),
+                               ("/second/incoming/v1/in/deeper", DIR), ("/second/incoming/v1/in/deeper/f.txt", b"payload")):
+                    want[k_] = v_
+            else:
+                listed = sorted(str(pth) for pth, info in await c.list("/other", recursive=True))
+                mon["recursive_list"] += 1
+                if listed != ["/other/o.txt", "/other/sub", "/other/sub/p.txt"]:
+                    viol.append({"key": f"listing-polluted-after-{what}", "msg": f"plan {plan}: list('/other') -> {listed}"})
+                if not await c.exists("/scratch/s1") or await c.exists("/scratch/nope"):
+                    viol.append({"key": f"exists-wrong-after-{what}", "msg": f"plan {plan}"})
+                await c.remove("/scratch")
+                mon["remove_tree"] += 1
+                for k_ in list(want):
+                    if k_ == "/scratch" or k_.startswith("/scratch/"):
+                        want.pop(k_)
+                st = await c.stat("/other/o.txt")
+                if st.get("type") != "file":
+                    viol.append({"key": f"stat-wrong-after-{what}", "msg": f"plan {plan}: {st}"})
+        except Exception as e:
+            viol.append({"key": f"next-operation-raises-after-{what}", "msg": f"plan {plan}: {e!r}"[:300]})
+        if w.tree() != want:
+            extra = sorted(set(w.tree()) - set(want))
+            missing = sorted(set(want) - set(w.tree()))
+            viol.append({"key": f"tree-wrong-after-{what}", "msg": f"plan {plan}: extra {extra[:4]} missing {missing[:4]}"})
+        try:
+            await c.quit()
+        except Exception:
+            pass
+        return viol, mon
+    finally:
+        await w.stop()
+        w.cleanup()
+
+
 async def run_plan(net, hyg, plan):
     if plan.get("op") == "cwd_switch":
         return await cwd_switch(net, hyg, plan)
+    if plan.get("op") == "after_error":
+        return await after_error(net, hyg, plan)
     rng = random.Random(plan["seed"])
     viol = []
     mon = {"upload_tree": 0, "download_tree": 0, "recursive_list": 0, "remove_tree": 0}
@@ -426,5 +525,9 @@ def gen_cases(tier, seed):
                 for fb in (False, True):
                     plans.append({"seed": seed, "op": "cwd_switch", "order": order, "probes": probes, "act": act, "fallback": fb,
                                   "tree": {}, "destination": "", "write_into": False, "cwd": "/" + order[1], "src_is_file": False})
+    for what in ("list-refused", "list-abandoned", "remove-refused", "upload-twice"):
+        for fb in (False, True):
+            plans.append({"seed": seed, "op": "after_error", "what": what, "fallback": fb, "tree": {}, "destination": "", "write_into": False,
+                          "cwd": "/", "src_is_file": False})
     per = 10
     return [{"plans": plans[i:i + per]} for i in range(0, len(plans), per)]
